@@ -145,6 +145,7 @@ package crdt
 //@   requires c != nil && c.Mast != nil && other != nil && other.Mast != nil
 //@   modifies c.Mast, c.MergeSources
 //@   ensures mode-mismatch: imp(c.MergeMode != other.MergeMode, result != nil)
+//@   ensures mast-kept-nonnil: c.Mast != nil
 //@   ensures failed-unchanged: imp(result != nil, c.Mast == old(c.Mast) && c.MergeSources == old(c.MergeSources))
 //@   ensures keys: forall a int :: imp(result == nil, has(T(*c.Mast), a) == (old(has(T(*c.Mast), a)) || has(T(*other.Mast), a)))
 //@   ensures only-mine: forall a int :: imp(result == nil && old(has(T(*c.Mast), a)) && !has(T(*other.Mast), a), T(*c.Mast)[a] == old(T(*c.Mast)[a]))
@@ -153,3 +154,13 @@ package crdt
 //@   ensures parent-recorded: imp(result == nil && other.Source != nil, len(c.MergeSources) == old(len(c.MergeSources)) + 1 && c.MergeSources[len(c.MergeSources) - 1] == *other.Source)
 //@   ensures parent-none: imp(result == nil && other.Source == nil, c.MergeSources == old(c.MergeSources))
 //@   ensures parents-kept: forall j int :: imp(result == nil && 0 <= j && j < old(len(c.MergeSources)), c.MergeSources[j] == old(c.MergeSources[j]))
+
+// Load / NewRoot: a tree handle on a stored (or empty) version.
+//@ func Load
+//@   modifies nothing
+//@   ensures imp(err == nil, result0 != nil && fresh(result0) && result0.Mast != nil && result0.Source == rootName && result0.Created == root.Created && result0.MergeSources == root.MergeSources && result0.MergeMode == root.MergeMode)
+//@   ensures imp(err != nil, result0 == nil)
+
+//@ func NewRoot
+//@   modifies nothing
+//@   ensures result.Created != nil && fresh(result.Created) && *result.Created == when && len(result.MergeSources) == 0 && result.MergeMode == 0
